@@ -1227,5 +1227,6 @@ func runC10(c *Ctx) error {
 	x.sde = ""
 	c10KeyIDThroughConfiguration(c)
 	c10SigningThroughEnvMapping(c)
+	c10RotatedSubkeys(c)
 	return nil
 }
